@@ -95,6 +95,9 @@ func Validate(sp *spec.Spec, t *spec.Type, val *spec.Val, v any, path string, ou
 			if av == nil {
 				present = false
 			}
+			if present && !rt.IsRequired(a.Name) && vtree.Empty(vtree.Norm(av)) {
+				continue // an empty collection of an optional attribute is absence (envelope decision)
+			}
 			if !present {
 				if rt.IsRequired(a.Name) {
 					*out = append(*out, Violation{"required", path + "." + a.Name, kindOf(sp, a.Type)})
